@@ -127,7 +127,7 @@ theorem chained1_zero_count_accepted (S : RuleSites) (b : Bytes) (q : Nat) (c : 
       c'.alloc = c.alloc + 65535 + 1 :=
   zero_count_aux 65535 (by decide) S b q c post h
 
-/-- AFTER the repair (nested.go:746, 1083): a rule whose `inputGlyphCount` word is 0 is refused as
+/-- AFTER the repair (nested.go:742, 1079): a rule whose `inputGlyphCount` word is 0 is refused as
 invalid, whatever follows it, in both formats -/
 theorem chained_zero_count_rejected (S : RuleSites) (b : Bytes) (q : Nat) (c : Cost)
     (back : List Nat) (q' : Nat) (c' : Cost) (h1 : readSlice S.back b q c = .ok (back, q', c'))
